@@ -466,6 +466,9 @@ func (g *gen) request(kind string) *areq {
 		for i := 0; i < k; i++ {
 			p, id := g.point(true)
 			us, cls := g.instantUS()
+			for (q.prec == "" || q.prec == "ns") && cls == "after-2286" { // not expressible in int64 nanoseconds
+				us, cls = g.instantUS()
+			}
 			ts := ""
 			switch q.prec {
 			case "", "ns":
